@@ -753,6 +753,10 @@ def str_repeat(m, a, ci):
 @reg('str.ToString::to_string', 'ToString::to_string', 'str::to_owned', 'str::to_string', 'String.Clone::clone',
      'str.ToOwned::to_owned', 'String.From::from', 'str.Into::into', 'EcoString.Clone::clone')
 def str_to_string(m, a, ci):
+    x = m.load(a[0]) if isinstance(a[0], Ref) else a[0]
+    if isinstance(x, (int, bool, float)) or z3.is_expr(x) or isinstance(x, Opaque):
+        # Display of a number / foreign value: an opaque string determined by the value
+        return OStr(('display', str(x)))
     return _s(m, a[0])
 
 
